@@ -97,10 +97,15 @@ UnsubStim(tr, u) == IF \E i \in 1..Len(tr) : IsUnsubStim(tr[i], u) THEN CHOOSE i
 \* instance number the leaves get when sink u subscribes: 1 + number of leaf subscriptions seen so far (all leaves must agree)
 LeafSubsBefore(tr, su, id) == Cardinality({ <<i, j>> \in (1..(su - 1)) \X (1..8) : j <= Len(tr[i].obs) /\ tr[i].obs[j].o = "probe" /\ tr[i].obs[j].k = "subscribed" /\ tr[i].obs[j].u = id })
 \* "ok" | "bad" | "na" (outside the domain of the definition: reactions, ill-formed input, subjects, ambiguous instance numbers, divergence)
-RefVerdict(tr, root, reacts, plain) ==
+RefVerdict(tr, root0, reacts, kind) ==
   \* a panic inside the library on well-formed input within the domain of the definition is not "the function the definition gives"
-  IF RefDomain(root, plain) /\ TermWF(root) /\ ~reacts /\ WFInput(Arr(tr)) /\ (\E i \in 1..Len(tr) : tr[i].fin \in {"panic", "stuck"}) THEN "bad"      \* (nor is a call that never returns)
-  ELSE IF ~(RefDomain(root, plain) /\ TermWF(root) /\ AllFinOk(tr) /\ ~reacts /\ WFInput(Arr(tr))) THEN "na"
+  LET plain == kind \in {"plain", "replay"}
+      root == IF kind = "replay" THEN Retag(root0) ELSE root0
+      arr0 == Arr(tr)
+      \* (a ReplaySubject that is handed anything after its terminal is ill-formed input for the definition)
+      wf == WFInput(arr0) /\ (kind = "replay" => \A i, j \in 1..Len(arr0) : (i < j /\ arr0[i].s >= SubjBase /\ arr0[i].k \in {"e", "c"}) => arr0[j].s # arr0[i].s) IN
+  IF RefDomain(root, plain) /\ TermWF(root) /\ ~reacts /\ wf /\ (\E i \in 1..Len(tr) : tr[i].fin \in {"panic", "stuck"}) THEN "bad"      \* (nor is a call that never returns)
+  ELSE IF ~(RefDomain(root, plain) /\ TermWF(root) /\ AllFinOk(tr) /\ ~reacts /\ wf) THEN "na"
   \* inner probe-2 instances are numbered in creation order across ALL subscribers: "k-th outer item = instance k" is the real
   \* numbering only while one sink subscribes (or nothing is ever sent to an inner probe)
   ELSE IF AnyProbe2(root) /\ ~OneSink(tr) /\ (\E i \in 1..Len(tr) : Arr(tr)[i].s = 2) THEN "na"
@@ -259,7 +264,7 @@ C17ok(tr, leakSink, leakOps) == (AllFinOk(tr) /\ AllSinksEnded(tr)) => (~leakSin
 \* ---------------------------------------------------------------- all verdicts of one history
 V(b) == IF b THEN "ok" ELSE "bad"      \* verdicts are strings: "ok" | "bad" | "na"
 Judge(tr, root, c, leakSink, leakOps) ==
-  LET rv == RefVerdict(tr, root, HasReact(c), Len(c.sbj) >= 1 /\ c.sbj[1] = "plain") IN
+  LET rv == RefVerdict(tr, root, HasReact(c), IF Len(c.sbj) >= 1 THEN c.sbj[1] ELSE "none") IN
   [C01 |-> V(C01ok(tr)), C05 |-> V(C05ok(tr)), C06 |-> V(HasPublish(c) \/ (C06ok(tr) /\ (HasReact(c) \/ ~OneSink(tr) \/ AmbLosersOK(tr, root)))), C07 |-> V(C07ok(tr)),
    REF |-> rv, TAP |-> V(rv = "na" \/ TapOK(tr, root)), C17 |-> V(C17ok(tr, leakSink, leakOps)),
    C10 |-> C10verdict(tr, root, c), C13 |-> C13verdict(tr, root, c)]
